@@ -40,6 +40,15 @@ if SCRATCH:
     EVIDENCE_DIR = os.path.join(SCRATCH, "evidence")
     REPLAY_DIR = os.path.join(SCRATCH, "replays")
 TAG = "verif"
+# The white-box export files in /repo (verif_export*.go) are guarded by `verif && verif_cXX`: each is compiled only for
+# the checks that use it, so that a refactor of unexported names behind one export breaks the tie of those checks only
+# (the yield hooks and the nflog query-key export stay under plain `verif`).
+ALL_TAGS = ",".join([TAG] + ["verif_c%02d" % i for i in range(1, 21)])
+
+
+def tags_for(pid):
+    return "%s,verif_%s" % (TAG, pid.lower())
+
 
 ALLOWED_AXIOMS = {
     # standard-library axioms that may appear (named in DESIGN.md section 7); none is expected.
@@ -375,7 +384,7 @@ def _run_harness_once(pid, tier, seed, outdir, replay, mode, timeout):
     if replay:
         env["VERIF_REPLAY"] = os.path.abspath(replay)
     pkg = "./" + pid.lower() + "/"
-    cmd = ["go", "test", "-tags", TAG, "-count=1", "-timeout", "%ds" % timeout, "-run", "^TestCheck$", pkg]
+    cmd = ["go", "test", "-tags", tags_for(pid), "-count=1", "-timeout", "%ds" % timeout, "-run", "^TestCheck$", pkg]
     rc, out = sh(cmd, cwd=HARNESS, env=env, timeout=timeout + 120)
     return rc, out
 
@@ -692,7 +701,7 @@ def setup():
     if rc != 0:
         print("coq build failed")
         return 1
-    rc, out = sh(["go", "test", "-tags", TAG, "-count=1", "-run", "^$", "./..."], cwd=HARNESS, env=goenv(), timeout=3000)
+    rc, out = sh(["go", "test", "-tags", ALL_TAGS, "-count=1", "-run", "^$", "./..."], cwd=HARNESS, env=goenv(), timeout=3000)
     print(out[-3000:])
     return 0 if rc == 0 else 1
 
